@@ -162,7 +162,13 @@ func registerECIntrinsics() {
 			if len(bs) != 64 {
 				return Tuple{Ptr(nil), errIface(p, "edwards25519: invalid SetUniformBytes input length")}
 			}
-			setEC(p, a[0], p.tb.App("sc_uniform", SInt, p.tb.Concat(termsOf(bs)...)))
+			in := p.tb.Concat(termsOf(bs)...)
+			u := p.tb.App("sc_uniform", SInt, in)
+			if p.e.cfg.CollisionFree {
+				// the wide reduction of distinct digests gives distinct scalars (collisions negligible)
+				p.assertPC(p.tb.Eq(p.tb.App("sc_uniform_inv", SBV(512), u), in))
+			}
+			setEC(p, a[0], u)
 			return Tuple{a[0], Iface{}}
 		},
 		sc + "Add":      bin(func(p *Path, x, y *Term) *Term { return p.tb.IAdd(x, y) }),
